@@ -729,5 +729,81 @@ inline B flip_zero_signs(const B &e)
     return e;
 }
 
+// A universe of n expressions built through the API from the recipe (seed, mode):
+//   mode 0: no NaN / no -0.0 doubles, no matrix expressions / multivariate polynomials
+//        1: + NaN doubles (D3)   2: + -0.0 doubles (D1)   3: + matrix expressions   4: + multivariate polynomials (D2)
+// with the special values of every number kind, near neighbours and independently rebuilt copies.
+inline std::vector<B> make_universe(uint64_t seed, unsigned n, int mode)
+{
+    Rng r(seed);
+    Gen g(r, true, mode == 1 ? 120 : 0);
+    g.no_negzero = mode != 2;
+    g.no_matexpr = mode != 3;
+    g.no_mpoly = mode != 4;
+    std::vector<B> u;
+    // every number kind with coinciding values, the special values
+    std::vector<B> fixed{integer(0), integer(1), integer(-1), integer(2), Rational::from_two_ints(1, 2),
+                         Rational::from_two_ints(-1, 2), real_double(1.0), real_double(0.0), real_double(2.0),
+                         real_double(0.5), complex_double(std::complex<double>(1.0, 0.0)),
+                         complex_double(std::complex<double>(0.0, 1.0)), Complex::from_two_nums(*integer(1), *integer(1)),
+                         Complex::from_two_nums(*integer(0), *integer(1)), Inf, NegInf, ComplexInf, Nan,
+                         real_double(std::numeric_limits<double>::infinity()),
+                         real_double(-std::numeric_limits<double>::infinity()), symbol("x"), symbol("y"), pi, E,
+                         boolTrue, boolFalse, emptyset(), reals(), integers(), universalset()};
+    for (auto &f : fixed)
+        u.push_back(f);
+    if (mode == 1) {
+        u.push_back(real_double(std::numeric_limits<double>::quiet_NaN()));
+        u.push_back(complex_double(std::complex<double>(std::numeric_limits<double>::quiet_NaN(), 1.0)));
+        u.push_back(complex_double(std::complex<double>(1.0, std::numeric_limits<double>::quiet_NaN())));
+    }
+    if (mode == 2) {
+        u.push_back(real_double(-0.0));
+        u.push_back(complex_double(std::complex<double>(-0.0, 1.0)));
+        u.push_back(function_symbol("f", B(real_double(0.0))));
+        u.push_back(function_symbol("f", B(real_double(-0.0))));
+        u.push_back(add(function_symbol("f", B(real_double(0.0))), symbol("y")));
+        u.push_back(add(function_symbol("f", B(real_double(-0.0))), symbol("y")));
+        u.push_back(mul(function_symbol("f", B(real_double(0.0))), symbol("y")));
+        u.push_back(mul(function_symbol("f", B(real_double(-0.0))), symbol("y")));
+    }
+    if (mode == 3) {
+        // the minimal inputs of the known defect of this mode
+        u.push_back(identity_matrix(integer(2)));
+        u.push_back(identity_matrix(symbol("x")));
+        u.push_back(zero_matrix(integer(1), integer(1)));
+        u.push_back(zero_matrix(integer(1), symbol("t")));
+    }
+    if (mode == 4) {
+        umap_uvec_mpz d1, d2;
+        d1[{0}] = integer_class(3);
+        d2[{0}] = integer_class(3);
+        u.push_back(MIntPoly::from_dict({symbol("x")}, std::move(d1)));
+        u.push_back(MIntPoly::from_dict({symbol("y")}, std::move(d2)));
+    }
+    while (u.size() < n) {
+        B e = g.any((int)r.below(3));
+        u.push_back(e);
+        // near neighbours: same structure, one ingredient changed; an independently rebuilt copy
+        if (r.coin(1, 6) && u.size() < n) {
+            try {
+                u.push_back(add(e, g.sym()));
+            } catch (const std::exception &) {
+            }
+        }
+        if (r.coin(1, 6) && u.size() < n) {
+            try {
+                if (dumpable(*e))
+                    u.push_back(vsexp::parse(vsexp::dump(*e)));
+            } catch (const std::exception &) {
+            }
+        }
+        if (mode == 2 && r.coin(1, 4) && u.size() < n)
+            u.push_back(flip_zero_signs(e));
+    }
+    return u;
+}
+
+
 } // namespace xg
 #endif
